@@ -7,6 +7,7 @@ Property theorems only (helper lemmas are `private`).  Statements are over the h
 import WpModel.Model.Declarations
 import WpModel.Model.VarSubst
 import WpModel.Model.LengthC07
+import WpModel.Model.PendingC07
 
 namespace Wp.C07
 open Wp Wp.Decl
@@ -690,6 +691,49 @@ example : expandBorderSide (α := String) (β := String) "border-top" .plain
     [⟨false, true, false, "1px"⟩, ⟨false, false, true, "solid"⟩] (fun _ t => .ok t)
     = .ok [("border-top-width", .val "1px"), ("border-top-color", .kw "initial"),
            ("border-top-style", .val "solid")] := by decide
+
+/-! ### `columns`: the two components commute -/
+
+def columnsNames : List String := (genericNames "expand_columns").getD []
+
+theorem columns_names_eq : columnsNames = ["column-width", "column-count"] := by decide
+
+/-- **`columns: a b` = `columns: b a`** for any two components (`auto` being acceptable as width and as count,
+nothing else being both, not both components `auto`): same longhands, same values, same validity. -/
+theorem columns_perm {α β : Type} (name : String) (head : Head) (a b : ColTok α) (autoTok : α)
+    (validate : String → α → R β)
+    (ha : a.isAuto = true → a.isWidth = true ∧ a.isCount = true)
+    (hb : b.isAuto = true → b.isWidth = true ∧ b.isCount = true)
+    (ha' : a.isAuto = false → ¬(a.isWidth = true ∧ a.isCount = true))
+    (hb' : b.isAuto = false → ¬(b.isWidth = true ∧ b.isCount = true))
+    (hab : ¬(a.isAuto = true ∧ b.isAuto = true)) :
+    genericFill columnsNames name head (columnsRaw [a, b] autoTok) validate =
+      genericFill columnsNames name head (columnsRaw [b, a] autoTok) validate := by
+  cases head with
+  | inheritKw => rfl
+  | initialKw => rfl
+  | hasVar => rfl
+  | plain =>
+    rw [columns_names_eq]
+    obtain ⟨aa, aw, ac, x⟩ := a
+    obtain ⟨ba, bw, bc, y⟩ := b
+    have hin2 : ∀ (p q : String × α), p.1 ∈ ["column-width", "column-count"] → q.1 ∈ ["column-width", "column-count"] →
+        ∀ n ∈ ([p, q] : List (String × α)).map Prod.fst, n ∈ ["column-width", "column-count"] := by
+      intro p q hp hq n hn
+      simp only [List.map_cons, List.map_nil, List.mem_cons, List.not_mem_nil, or_false] at hn
+      rcases hn with rfl | rfl <;> assumption
+    cases aa <;> cases aw <;> cases ac <;> cases ba <;> cases bw <;> cases bc <;>
+      simp only [Bool.false_eq_true, false_and, and_false, and_true, true_and, and_self, not_true_eq_false,
+        not_false_eq_true, false_implies, true_implies, forall_const] at ha hb ha' hb' hab <;>
+      simp only [columnsRaw, columnsLoop, Bool.and_true, Bool.and_false, Bool.true_and, Bool.false_and,
+        Bool.false_eq_true, if_false, if_true, List.nil_append, List.cons_append, bne_self_eq_false,
+        reduceCtorEq, bne_iff_ne, ne_eq, not_false_eq_true, not_true_eq_false, Option.some.injEq,
+        String.reduceEq] <;>
+      first
+        | rfl
+        | (apply genericFill_perm _ _ _ _ _ rfl rfl (List.Perm.swap _ _ _)
+           exact hin2 _ _ (by simp) (by simp))
+        | (rw [genericFill_ends_invalid _ _ _ _ rfl (by simp), genericFill_ends_invalid _ _ _ _ rfl (by simp)])
 
 /-! ## 5. border-radius -/
 
@@ -1567,5 +1611,162 @@ example : (match resolveVar (fun n => if n = "__c" then [.ident "red"] else []) 
     | _ => false) = true := by decide
 
 end VarSubst
+
+/-! ## 9. Which tokens are lengths, and what becomes of them -/
+
+section GetLength
+open Len07
+
+/-- `LENGTH_UNITS` as the model builds it (table keys + relative units, AST) = the runtime set. -/
+theorem length_units_agree :
+    (lengthUnits.all fun u => Gen.UnitsC07.lengthUnitsRuntime.contains u) = true ∧
+    (Gen.UnitsC07.lengthUnitsRuntime.all fun u => lengthUnits.contains u) = true := by decide
+
+/-- `get_length` only lets through percentages (when asked), the unitless zero, and dimensions whose unit is,
+**as written**, one of `LENGTH_UNITS`. -/
+theorem get_length_unit (n p : Bool) (t : LTok) (v : Rat) (u : Option String)
+    (h : getLength n p t = some (.dim v u)) :
+    (u = some "%" ∧ p = true) ∨ (u = none ∧ v = 0) ∨ (∃ w, u = some w ∧ lengthUnits.contains w = true) := by
+  cases t with
+  | percentage x =>
+    simp only [getLength] at h
+    split at h
+    · rename_i hc
+      simp only [Bool.and_eq_true] at hc
+      cases h; exact Or.inl ⟨rfl, hc.1⟩
+    · cases h
+  | dimension x w l =>
+    simp only [getLength] at h
+    split at h
+    · rename_i hc
+      simp only [Bool.and_eq_true] at hc
+      cases h; exact Or.inr (Or.inr ⟨w, rfl, hc.1⟩)
+    · cases h
+  | number x =>
+    simp only [getLength] at h
+    split at h
+    · cases h; exact Or.inr (Or.inl ⟨rfl, rfl⟩)
+    · cases h
+  | other => simp [getLength] at h
+
+/-- `get_length` never returns a keyword. -/
+theorem get_length_dim (n p : Bool) (t : LTok) (s : Spec) (h : getLength n p t = some s) :
+    ∃ v u, s = .dim v u := by
+  cases t <;> simp only [getLength] at h
+  · split at h <;> cases h; exact ⟨_, _, rfl⟩
+  · split at h <;> cases h; exact ⟨_, _, rfl⟩
+  · split at h <;> cases h; exact ⟨_, _, rfl⟩
+  · cases h
+
+private theorem rel_units_beq :
+    ("ex" == "px") = false ∧ ("ch" == "px") = false ∧ ("em" == "px") = false ∧ ("rem" == "px") = false ∧
+    ("ch" == "ex") = false ∧ ("em" == "ex") = false ∧ ("em" == "ch") = false ∧ ("rem" == "ex") = false ∧
+    ("rem" == "ch") = false ∧ ("rem" == "em") = false := by decide
+
+/-- A dimension in one of `LENGTH_UNITS` always computes to pixels. -/
+theorem length_of_known_unit (ctx : FontCtx) (po : Bool) (v : Rat) (u : String)
+    (hu : lengthUnits.contains u = true) :
+    ∃ q, length ctx po (.dim v (some u)) = if po then .number q else .dim q (some "px") := by
+  cases hf : factor u with
+  | some k =>
+    rw [length_absolute ctx po v u k hf]
+    by_cases hv : v = 0
+    · exact ⟨0, by simp [hv]⟩
+    · exact ⟨v * k, by simp [hv]⟩
+  | none =>
+    have hrel : u = "ex" ∨ u = "em" ∨ u = "ch" ∨ u = "rem" := by
+      have hm : u ∈ lengthUnits := by simpa using hu
+      simp only [lengthUnits, Gen.UnitsC07.lengthsToPixels, Gen.UnitsC07.relativeUnits, List.map_cons,
+        List.map_nil, List.cons_append, List.nil_append, List.mem_cons, List.not_mem_nil, or_false] at hm
+      have hk : ∀ w ∈ ["px", "pt", "pc", "in", "cm", "mm", "q"], factor w ≠ none := by decide +kernel
+      rcases hm with rfl | rfl | rfl | rfl | rfl | rfl | rfl | h
+      · exact absurd hf (hk _ (by simp))
+      · exact absurd hf (hk _ (by simp))
+      · exact absurd hf (hk _ (by simp))
+      · exact absurd hf (hk _ (by simp))
+      · exact absurd hf (hk _ (by simp))
+      · exact absurd hf (hk _ (by simp))
+      · exact absurd hf (hk _ (by simp))
+      · exact h
+    obtain ⟨b1, b2, b3, b4, b5, b6, b7, b8, b9, b10⟩ := rel_units_beq
+    by_cases hv : v = 0
+    · exact ⟨0, by simp [length, hv]⟩
+    · have hv' : (v == 0) = false := by simp [hv]
+      rcases hrel with rfl | rfl | rfl | rfl
+      · exact ⟨v * ctx.fontSize * ctx.exRatio, by cases po <;> simp [length, hv', hf, b1]⟩
+      · exact ⟨v * ctx.fontSize, by cases po <;> simp [length, hv', hf, b3, b6, b7]⟩
+      · exact ⟨v * ctx.fontSize * ctx.chRatio, by cases po <;> simp [length, hv', hf, b2, b5]⟩
+      · exact ⟨v * ctx.rootFontSize, by cases po <;> simp [length, hv', hf, b4, b8, b9, b10]⟩
+
+/-- **An accepted length never reaches layout unconverted**: whatever `get_length` lets through is computed by
+`length` to pixels (a bare number under `pixels_only`), or stays a percentage. -/
+theorem accepted_length_computes_to_px (ctx : FontCtx) (po n p : Bool) (t : LTok) (s : Spec)
+    (h : getLength n p t = some s) :
+    (∃ q, length ctx po s = .number q) ∨ (∃ q, length ctx po s = .dim q (some "px")) ∨
+      (∃ q, length ctx po s = .dim q (some "%")) := by
+  obtain ⟨v, u, rfl⟩ := get_length_dim n p t s h
+  rcases get_length_unit n p t v u h with ⟨rfl, _⟩ | ⟨rfl, rfl⟩ | ⟨w, rfl, hw⟩
+  · by_cases hv : v = 0
+    · cases po <;> simp [length, hv]
+    · have hv' : (v == 0) = false := by simp [hv]
+      have hf : factor "%" = none := by decide +kernel
+      have hb : ("%" == "px") = false ∧ ("%" == "ex") = false ∧ ("%" == "ch") = false ∧ ("%" == "em") = false ∧
+          ("%" == "rem") = false := by decide
+      right; right
+      exact ⟨v, by simp [length, hv', hf, hb]⟩
+  · cases po <;> simp [length]
+  · obtain ⟨q, hq⟩ := length_of_known_unit ctx po v w hw
+    cases po
+    · right; left; exact ⟨q, by simpa using hq⟩
+    · left; exact ⟨q, by simpa using hq⟩
+
+/-- A unit written in upper case is not a length for `get_length` (HEAD drops `width: 1IN` with a warning). -/
+example : getLength true true (.dimension 1 "IN" "in") = none ∧
+    getLength true true (.dimension 1 "in" "in") = some (.dim 1 (some "in")) := by decide +kernel
+
+end GetLength
+
+/-! ## 10. Pending (`var()`) values in `ComputedStyle.__missing__` -/
+
+section PendingValues
+open Wp.Pending
+
+/-- The `INHERITED` literal of the source = the runtime set. -/
+theorem inherited_table_agrees : Gen.InheritedC07.inheritedAst = Gen.InheritedC07.inherited := rfl
+
+/-- **A `var()` whose substituted value is invalid has no effect**: the property gets exactly what it gets
+when the declaration is absent (the parent's value for an inherited property, the initial value otherwise). -/
+theorem pending_invalid_as_absent {β : Type} (key : String) (hasParent : Bool) (hk : isCustom key = false) :
+    select (β := β) key hasParent (.pending .invalid) = select key hasParent .absent := by
+  cases hi : isInherited key <;> cases hasParent <;> simp [select, hi, hk]
+
+/-- **A `var()` whose substituted value is valid / `initial` / (with a parent) `inherit` is the literal
+declaration.** -/
+theorem pending_valid_as_literal {β : Type} (key : String) (hasParent : Bool) (v : β) :
+    select key hasParent (.pending (.valid v)) = select key hasParent (.value v) ∧
+    select (β := β) key hasParent (.pending .initialKw) = select key hasParent .initialKw ∧
+    select (β := β) key true (.pending .inheritKw) = select key true .inheritKw := by
+  refine ⟨?_, ?_, ?_⟩ <;> cases hasParent <;> simp [select]
+
+/-- With a parent, selecting a value never fails. -/
+theorem select_total_with_parent {β : Type} (key : String) (c : Casc β) : ∃ s, select key true c = .ok s := by
+  cases c with
+  | absent => cases hi : isInherited key <;> cases hc : isCustom key <;> simp [select, hi, hc, pure, Except.pure]
+  | inheritKw => simp [select, pure, Except.pure]
+  | initialKw => simp [select, pure, Except.pure]
+  | value v => simp [select, pure, Except.pure]
+  | pending s =>
+    cases s with
+    | valid v => simp [select, pure, Except.pure]
+    | inheritKw => simp [select, pure, Except.pure]
+    | initialKw => simp [select, pure, Except.pure]
+    | invalid => cases hi : isInherited key <;> simp [select, hi, pure, Except.pure]
+
+/-- `font-size` is inherited (hyphenated names are looked up in their underscore form), `width` is not. -/
+example : select (β := Nat) "font_size" true (.pending .invalid) = .ok .parent ∧
+    select (β := Nat) "width" true (.pending .invalid) = .ok .initial ∧
+    select (β := Nat) "font_size" false (.pending .invalid) = .ok .initial := by decide
+
+end PendingValues
 
 end Wp.C07
